@@ -30,7 +30,7 @@ Proof. exact inv_delete. Qed.
     tree saying which paths are sections and which are leaves) to which all
     level contents conform; the history starts from a merged state without
     edits; every operation navigates from the root and is a read (get, contains,
-    len, keys), a deletion (del, pop, popitem, clear), a write of LEAVES where the
+    len, keys, .get(k[,d]), items/values/dict view, ==), a deletion (del, pop, popitem, clear), a write of LEAVES where the
     schema has leaves (set, setdefault with or without default, update), a
     reload of the defaults / overrides / collection level with conforming data,
     or load_shell_env with ANY environment (its level is computed by
